@@ -452,15 +452,16 @@ PROPS = {
     "C17": dict(
         audit_modules=["RodbusModel.Audit.C17"],
         required_theorems=["Rodbus.C17.silent_unless_addressed", "Rodbus.C17.broadcast_write", "Rodbus.C17.broadcast_read_ignored",
-                           "Rodbus.C17.broadcast_never_answered", "Rodbus.C17.unit0_ordinary_on_tcp"],
-        suites=[dict(gen="srv_rtu", n=(3000, 200000)), dict(gen="srv_tcp", n=(800, 50000))],
+                           "Rodbus.C17.broadcast_never_answered", "Rodbus.C17.unit0_ordinary_on_tcp",
+                           "Rodbus.C17.silent_unless_addressed_or_denied", "Rodbus.C17.denied_answered_even_if_unconfigured"],
+        suites=[dict(gen="srv_rtu", n=(3000, 200000)), dict(gen="srv_tcp", n=(800, 50000)), dict(gen="srv_auth", n=(600, 50000))],
         level_text="Proof: silent_unless_addressed (for EVERY pdu - valid, failing in the handler or malformed - a frame for an unconfigured, "
                    "non-broadcast address yields no reply and no call), broadcast_write (RTU destination 0, valid write => exactly one write call per "
                    "configured unit in ascending order, results ignored, no reply), broadcast_never_answered (not even exceptions, also when "
                    "malformed or denied), broadcast_read_ignored, unit0_ordinary_on_tcp. Tie: production RTU sessions over the in-memory transport "
                    "with unit maps of 0..4 units and random destinations incl. 0 and unconfigured ids; silence is visible as absent bytes before the "
                    "reply of a later request.",
-        level_note="Trusted as C01. Finding F1 (malformed frames to unconfigured units were answered) is fixed in the tree.",
+        level_note="Trusted as C01. Finding F1 (malformed frames to unconfigured units were answered) is fixed in the tree. With an authorization handler (TLS sessions only) the silence theorem is silent_unless_addressed_or_denied: a DENIED request to an unconfigured unit id is answered with exception 01 (denied_answered_even_if_unconfigured), because C08 prescribes the deny answer for all unit ids and places the question before unit dispatch; that single point is read as governed by C08, not as a C17 violation (DESIGN.md).",
         technique="Lean 4 proof (RTU instance of the handle_frame model) + differential RTU sessions",
         classify=classify_srv, nontrivial=nontrivial_srv, finding_key=no_key, rule="cases = corpus (witnesses of repaired defects first) + exhaustive sub-domains + seeded sessions of 1..12 (quick) / 1..40 (thorough) requests mixing valid (3/4), malformed (grammar-aware mutations), exception-raising and wrong-unit requests over random unit maps (0..4 units, per-address read/write exceptions), delivered frame-by-frame or under random chunkings, with commands injected; distinct = distinct case line; non-trivial = the session produced a reply or an application call",
         assumptions=["a serial bus delivers every frame to every device; framing is by the length rule of C06"],
@@ -469,7 +470,8 @@ PROPS = {
         audit_modules=["RodbusModel.Audit.C09"],
         required_theorems=["Rodbus.C09.versions_correct", "Rodbus.C09.tls_table_correct", "Rodbus.C09.admit_iff",
                            "Rodbus.C09.client_admit_iff", "Rodbus.C09.role_is_certificate_role", "Rodbus.C09.no_role_refused",
-                           "Rodbus.C09.negotiated_at_least_min", "Rodbus.C09.negotiation_succeeds"],
+                           "Rodbus.C09.negotiated_at_least_min", "Rodbus.C09.negotiation_succeeds",
+                           "Rodbus.C09.role_is_end_entity_role", "Rodbus.C09.roleless_end_entity_refused"],
         suites=[dict(gen="tls", n=(0, 0), jobs=16,
                      exhaustive="thorough: the full grid {min 1.2,1.3} x {authority,self-signed} x {authz,no authz} x {client,server} x peer "
                                 "versions {1.2,1.3,both} x certificate kinds (246 handshakes); quick: all version cells with valid "
